@@ -660,6 +660,11 @@ func (p *Prog) GuardStrings(in ssa.Instruction) []string {
 		for _, extra := range p.boolHelperFacts(a) {
 			add(extra)
 		}
+		// a case expression `a || b` / `a && b` evaluated as a value: where the whole is false
+		// (resp. true) every operand is
+		for _, c := range shortCircuitParts(a) {
+			add(NormAtom(c.Cond, c.Pol))
+		}
 		// `var ok bool; if pre { _, ok = lookup }; if ok {…}`: a flag that is false unless one
 		// test set it.  Where the flag holds, that test held; where it does not, the test
 		// failed or was never made ("maybe-not:" — for rules about what happens on a miss).
@@ -685,6 +690,51 @@ func (p *Prog) GuardStrings(in ssa.Instruction) []string {
 		}
 	}
 	return out
+}
+
+// shortCircuitParts: for the atom !(a || b || …) or (a && b && …), where the operator was
+// compiled to a merge of values (go/ssa does that for expressions that are not directly a
+// branch condition, e.g. the cases of a tagless switch), the operand atoms it implies.
+func shortCircuitParts(a Atom) []Atom {
+	ph, ok := a.Cond.(*ssa.Phi)
+	if !ok {
+		return nil
+	}
+	var want bool // the constant the short-circuiting edges carry
+	switch {
+	case ph.Comment == "||" && !a.Pol:
+		want = true
+	case ph.Comment == "&&" && a.Pol:
+		want = false
+	default:
+		return nil
+	}
+	var out []Atom
+	jb := ph.Block()
+	for k, e := range ph.Edges {
+		if k >= len(jb.Preds) {
+			return nil
+		}
+		if c, isC := e.(*ssa.Const); isC && c.Value != nil && c.Value.Kind() == constant.Bool && constant.BoolVal(c.Value) == want {
+			// the operand tested at the end of that predecessor decided the whole
+			pr := jb.Preds[k]
+			iff, isIf := pr.Instrs[len(pr.Instrs)-1].(*ssa.If)
+			if !isIf {
+				return nil
+			}
+			// on this way the operand had the short-circuiting value; in our atom it has the other
+			pol := !(pr.Succs[0] == jb)
+			out = append(out, Atom{Cond: iff.Cond, Pol: pol})
+			continue
+		}
+		out = append(out, Atom{Cond: e, Pol: a.Pol})
+	}
+	// nested operands
+	var more []Atom
+	for _, o := range out {
+		more = append(more, shortCircuitParts(o)...)
+	}
+	return append(out, more...)
 }
 
 // predicateHelperFact: a guard that is a call to a side-effect-free private predicate
